@@ -11,7 +11,8 @@ EXPLANATION = ('Decided from MIR by table extraction: (R19.1) key tables agree: 
                'field of the constructed Parameters) name the same key path for all ten entries, and both arrays are printed whole (or shortened only by the entry the reader\'s padding restores); (R19.2) lexical compatibility: a `{}`-formatted '
                'f64 may print an integer-looking token, so every numeric entry\'s reader must accept Integer as well as Real; offsets: writer '
                '`deg(` + to_degrees + `)` <-> reader strip `deg(`/`)` + to_radians, plain Real and Integer accepted; (R19.3) 5 -> 6 padding and '
-               'the != 6 error for both arrays; (R19.4) panic-site census from from_yaml_file (an error value, never a panic).  The YAML '
+               'the != 6 error for both arrays; (R19.4) panic-site census from from_yaml_file (an error value, never a panic); (R19.5) the scalar reader, '
+               'interpreted with the answers of as_f64 / as_i64 scripted, returns the real, or the integer as that same number, and an error value otherwise.  The YAML '
                'library\'s own parsing of arbitrary bytes is assumed.')
 NOT_DECIDED = 'the YAML library\'s parsing of arbitrary byte strings; equality of offsets up to the printed precision (numerical)'
 ASSUMPTIONS = ['yaml_rust2 parses `0` as Integer and `0.5` as Real, and Yaml::index(&str) returns BadValue for a missing key',
@@ -363,6 +364,7 @@ def run(ctx):
     ctx.rule('R19.2', 'every token the writer can print for an entry is accepted by the reader of that entry (integer-looking lengths, deg(..) offsets)')
     ctx.rule('R19.3', 'offset / sign arrays: 5 -> 6 padding, length != 6 is an error value')
     ctx.rule('R19.4', 'panic-site census of from_yaml_file')
+    _number_reader(ctx, prog)
     wr = [b for p, b in prog.bodies.items() if p.endswith('Parameters::to_yaml')]
     rd = [b for p, b in prog.bodies.items() if p.endswith('::from_yaml_file')]
     ctx.require(len(wr) == 1 and len(rd) == 1, 'Parameters::to_yaml and Parameters::from_yaml_file')
@@ -801,3 +803,42 @@ def _arrays(ctx, prog):
         pads[name.replace('read_', '')] = util.const_val(padv) if padv is not None else None
         ctx.check(pad and err, 'R19.3', name, where.where(0), where.path, 'a five-entry array must be padded to six and any other length must yield InvalidLength', found='pad=%s error=%s' % (pad, err))
     return pads
+
+
+def _number_reader(ctx, prog):
+    """R19.5: a length written as a real or as an integer reads as that number; anything else is an error value.  The scalar
+    reader (fn(&Yaml, &str) -> Result<f64, ..>) is interpreted with the answers of Yaml::as_f64 / as_i64 scripted."""
+    from .. import absint
+    from ..absint import Interp, Iv, Sym, SOME, NONE
+    ctx.rule('R19.5', 'the scalar reader returns the real, or the integer as that same number, and an error value for anything else')
+    rd = [b for p_, b in prog.bodies.items() if p_.startswith('parameters_from_file::') and b.kind != 'Closure' and b.arg_count == 2 and
+          'Yaml' in b.local_ty(1) and 'str' in b.local_ty(2) and 'Result<f64' in b.local_ty(0).replace('std::result::', '')]
+    if len(rd) != 1:
+        return
+    b = rd[0]
+    ctx.fn(b)
+    for real, integer, want in ((2.5, None, 2.5), (None, 3, 3.0), (None, -7, -7.0), (None, 0, 0.0), (None, None, None)):
+        def h_f64(I, st, a, t, b_, real=real):
+            return NONE if real is None else SOME(Iv(real))
+
+        def h_i64(I, st, a, t, b_, integer=integer):
+            return NONE if integer is None else SOME(integer)
+        def h_err(I, st, a, t, b_):
+            return Sym('error-value')
+        I = Interp(prog, {'Yaml::as_f64': h_f64, 'Yaml::as_i64': h_i64, 'Into::into': h_err, 'From::from': h_err, 'ToString::to_string': h_err,
+                          'ToOwned::to_owned': h_err, 'str::to_string': h_err, 'String::from': h_err}, fuel=20000, max_paths=8)
+        try:
+            outs = I.run(b.path, [('refval', Sym('node'), ()), 'name'])
+        except (absint.Unsupported, absint.Undecided):
+            return
+        if len(outs) != 1:
+            return
+        r = outs[0].ret
+        if want is None:
+            ok = isinstance(r, tuple) and r[0] == 'enum' and r[1] == 1
+        else:
+            ok = isinstance(r, tuple) and r[0] == 'enum' and r[1] == 0 and isinstance(r[2][0], Iv) and r[2][0].is_point() and r[2][0].lo == want
+        key = 'number(real=%s,int=%s)' % (real, integer)
+        ctx.check(ok, 'R19.5', key, b.where(0), b.path,
+                  'a node that is the real %s / the integer %s must read as %s' % (real, integer, 'an error value' if want is None else want),
+                  found=repr(r)[:120], expected='Err' if want is None else 'Ok(%s)' % want, detail='by interpretation')
